@@ -97,12 +97,23 @@ public:
     {
         size_type removedObjects = 0;
 
+        // A block that was allocated but never committed (the constructor of the
+        // object threw) is counted in m_objectCount, but does not hold an object.
+        const bool          fUncommitted =
+            this->m_firstFreeBlock != this->m_nextFreeBlock;
+
+        const size_type     theObjectCount =
+            fUncommitted == true && this->m_objectCount > 0 ?
+                size_type(this->m_objectCount - 1) :
+                this->m_objectCount;
+
         for (size_type i = 0;
                 i < this->m_blockSize &&
-                removedObjects < this->m_objectCount;
+                removedObjects < theObjectCount;
                     ++i)
         {
-            if ( isOccupiedBlock(&this->m_objectBlock[i]) )
+            if ( (fUncommitted == false || i != this->m_firstFreeBlock) &&
+                 isOccupiedBlock(&this->m_objectBlock[i]) )
             {
                 this->m_objectBlock[i].~ObjectType();
 
